@@ -24,6 +24,8 @@ def run(ctx, F, cg):
     ctx.rule("R01c", "the operator-local copies of the expression evaluator agree with eval_expression, variant by variant, on the semantic helper each arm calls; no arm is empty")
     ctx.rule("R01e", "sum() keeps its total across the integer -> float switch: the aggregate state selects the float accumulator alone once its integer flag is false, so every writer that may clear the flag (row update, partial-group merge) folds the integer accumulator into the float one on that path")
     sr.flag_selected_accumulators(ctx, F, cg, "R01e")
+    ctx.rule("R01f", "OPTIONAL MATCH keeps every left row: the left outer join resets each of its per-left-row flags (fields it sets `true` while probing a row) wherever it advances to the next left row")
+    sr.per_row_flags_reset(ctx, F, cg, "R01f")
     ctx.rule("R01d", "every IndexScanOperator built by the planner is given the pattern's labels (with_labels)")
     # ---- R01a ------------------------------------------------------------------------------------------
     ini = [r for p, r in F.fns.items() if p == OPS + "NodeScanOperator::initialize"]
